@@ -303,3 +303,22 @@ Qed.
 Theorem get_val_core f r o v : core_fmt f ->
   get_val_f64 f (quantize f r o v) = Fin (quantize f r o v) (- nf f).
 Proof. intros Hf. apply get_val_exact; [exact Hf|]. apply code_bound. destruct Hf; lia. Qed.
+
+(* ---- complex inputs: each component is quantized on its own (C01, C04) ---- *)
+Theorem set_val_complex_core f r o vre vim : core_fmt f -> Forall (core_dy f) vre -> Forall (core_dy f) vim ->
+  set_val_complex f r o (map f64_of_core vre) (map f64_of_core vim)
+  = Ok {| cw_re := map (quantize f r o) vre; cw_im := map (quantize f r o) vim;
+          cw_ovf := existsb (ovf_cond f r) vre || existsb (ovf_cond f r) vim;
+          cw_unf := existsb (unf_cond f r) vre || existsb (unf_cond f r) vim;
+          cw_inacc := existsb (inacc_cond f r o) vre || existsb (inacc_cond f r o) vim |}.
+Proof.
+  intros Hf Hre Him. unfold set_val_complex.
+  assert (Hbig: existsb num_big64 (map NF (map f64_of_core vre)) = false).
+  { rewrite map_map, existsb_map. apply existsb_false. eapply Forall_impl; [|exact Hre]. intros v Hv. apply (not_big_float f v Hf Hv). }
+  rewrite Hbig. replace (64 <=? nw f) with false by (destruct Hf; lia). cbn [orb].
+  assert (Hpipe: forall vs, Forall (core_dy f) vs ->
+            mapM (elem_pipe f r o false false) (map NF (map f64_of_core vs)) = Ok (map (spec_eres f r o) vs)).
+  { intros vs Hvs. apply mapM_Forall2. induction Hvs as [|v vs Hv _ IH]; cbn [map]; constructor; [|exact IH]. apply elem_pipe_float; assumption. }
+  rewrite (Hpipe vre Hre). cbn [bind]. rewrite (Hpipe vim Him). cbn [bind].
+  rewrite !map_map, !existsb_map. reflexivity.
+Qed.
